@@ -148,9 +148,9 @@ fn cross_process(ctx: &mut Ctx, cases: &[FullCase], procs: usize) {
 pub fn check(ctx: &mut Ctx) {
     ctx.rule = "lists of up to 120 (mid) / up to ~3000 (big, with many rules sharing a token so buckets hold several rules and fusion happens) network + cosmetic rules, debug/optimise flags generated; (a) two independent in-process builds give identical bytes, (b) K fresh child processes give the same digest as the parent, (c) serialize(deserialize(b)) == b twice. Plus deterministic slices of the real lists in /repo/data. Non-trivial = at least 8 network and 4 cosmetic rules.".into();
     ctx.assumptions = vec!["hash-seed variation comes from std RandomState (fresh per map and per process); digests are two independent 64-bit seahash values + length".into()];
-    let n = ctx.tier.pick(3_000, 120_000);
+    let n = ctx.tier.pick(20_000, 200_000);
     drive(ctx, "mid", n, 6000, &decode, &check_case);
-    let n = ctx.tier.pick(160, 4_000);
+    let n = ctx.tier.pick(600, 6_000);
     drive(ctx, "big", n, 60000, &decode_big, &check_case);
     // real lists + cross-process
     let (per, len) = ctx.tier.pick((2, 1500), (10, 12000));
@@ -159,7 +159,7 @@ pub fn check(ctx: &mut Ctx) {
         run_one(ctx, "real-lists", c, &check_case);
     }
     // generated lists for the cross-process part (deterministic from the seed)
-    let ngen = ctx.tier.pick(150, 3000);
+    let ngen = ctx.tier.pick(600, 4000);
     let mut gen_cases = vec![];
     {
         use proptest::strategy::{Strategy, ValueTree};
